@@ -180,7 +180,8 @@ with ast_stmt (s : mstmt) : qn :=
       QN KSelect (nameA (match fr with f :: _ => q_name f | [] => "" end))
          [(SWith, wrap_with (ast_ctes w));
           (SColumns, ast_items cols); (SFrom, fr);
-          (SJoins, ast_joins (match fr with f :: _ => [f] | [] => [] end) 0 joins);
+          (* the first JOIN is attached to the LAST item of the FROM list (JOIN binds tighter than the comma; /repo f66be25) *)
+          (SJoins, ast_joins (match rev fr with f :: _ => [f] | [] => [] end) 0 joins);
           (SWhere, ast_opt wh); (SGroupBy, ast_exprs gb); (SHaving, ast_opt hv);
           (SOrderBy, map ob_wrap (ast_exprs ob))]
   | MSetOp op l r => QN KSetOp (opA op) [(SLeft, [ast_stmt l]); (SRight, [ast_stmt r])]
